@@ -255,6 +255,10 @@ def gen_numeric_edit(rng, spec, kinds=None):
         # keep durations away from floor/ceil discontinuities
         for _ in range(20):
             cand = {"m": round(old["m"] * rng.choice([0.6, 0.9, 1.3, 1.7]) + rng.choice([0, 0.013]), 6), "u": old["u"]}
+            if rng.random() < 0.3:
+                # the new duration written in another unit than the one the object was built with
+                nu = rng.choice([a for a in ("s", "min", "hour", "day") if a != old["u"]])
+                cand = {"m": round(float(frac(cand["m"]) * realsys.unit_info(old["u"])[0] / realsys.unit_info(nu)[0]), 6), "u": nu}
             if cand["m"] > 0 and specgen.safe_duration(cand, realsys.unit_info):
                 return {"op": "setq", "kind": kind, "name": name, "param": p, "value": cand}
         return None
